@@ -916,7 +916,8 @@ def corpus_string_instances(R, r):
     A = xo.String[:]
     ctx = {"component": "heap", "corpus": "string-instance-with-spare-room"}
     for how in (30, 17, 9):
-        buf = xo.ContextCpu().new_buffer(64)
+        buf = xo.ContextCpu().new_buffer(64 if how == 30 else 512)
+        buf.update_from_buffer(0, bytes([0xA5]) * buf.capacity)
         try:
             src = xo.String(how, _buffer=buf)          # a capacity: the empty text with spare room
             text = ""
@@ -924,12 +925,18 @@ def corpus_string_instances(R, r):
                                 ("Rec(s=src)", lambda: S(k=1, s=src, z=2, _buffer=buf)),
                                 ("String[:]([src, 'x'])", lambda: A([src, "x"], _buffer=buf))):
                 log = []
+                img0 = bytes(buf.to_bytearray(0, buf.capacity))
                 orig = buf.allocate
                 buf.allocate = lambda size, align=True, _o=orig, _l=log: (_l.append((int(_o(size) if align is True else _o(size, align)), int(size))) or _l[-1][0])
                 try:
                     obj = build()
                 finally:
                     del buf.allocate
+                img1 = bytes(buf.to_bytearray(0, buf.capacity))
+                wild = [i for i in range(min(len(img0), len(img1))) if img0[i] != img1[i] and not any(o <= i < o + n_ for o, n_ in log)]
+                if wild:
+                    R.fail("C03:construction-wrote-outside", f"{what} with src a String with spare room (capacity {how}): bytes {wild[:6]} outside the "
+                           f"extents it reserved ({log}) changed", ctx)
                 guard = xo.String("neighbour", _buffer=buf)          # the next object in the buffer
                 if isinstance(obj, xo.String):
                     got = obj.to_str()
@@ -947,6 +954,22 @@ def corpus_string_instances(R, r):
                     R.fail("C03:size-vs-extent", f"{what} with src a String with spare room (capacity {how}): reports size {size} at {int(obj._offset)} but "
                            f"reserved {log}", ctx)
                 R.tags["corpus.string-instance"] += 1
+                # a String instance that is LARGER than the slot (its text would fit, its room does not) is refused by assignment
+                if not isinstance(obj, xo.String):
+                    big = xo.String(how + 40, _buffer=xo.ContextCpu().new_buffer(128))
+                    img2 = bytes(buf.to_bytearray(0, buf.capacity))
+                    try:
+                        if isinstance(obj, S):
+                            obj.s = big
+                        else:
+                            obj[0] = big
+                        R.fail("C11:misfit-accepted", f"{what}: assigning a String instance of {int(big._size)} bytes (empty text, spare room) to "
+                               f"the string slot created for capacity {how} was accepted", ctx)
+                    except Exception:
+                        R.tags["corpus.string-instance.refused"] += 1
+                    if bytes(buf.to_bytearray(0, buf.capacity)) != img2:
+                        R.fail("C11:error-with-side-effect", f"{what}: assigning a larger String instance to the string slot (capacity {how}) "
+                               f"changed the buffer", ctx)
         except Exception as ex:
             R.fail("C01:constructor-raises:" + type(ex).__name__, f"a String instance with spare room (capacity {how}) as a value: {type(ex).__name__}: {str(ex)[:160]}", ctx)
 
